@@ -317,6 +317,28 @@ def oracle(ctx, c_, e_):
         k, err = observe(c_, *bad)
         if k is not None:
             ctx.failure("oor-%s" % (bad,), "out-of-range tuple %s accepted as %r" % (bad, k), input=bad)
+    # every index pair with an entry outside 1..3 (all neighbours -1..5), alone and inside a 4-tuple
+    rngv = range(-1, 6)
+    for i in rngv:
+        for j in rngv:
+            if 1 <= i <= 3 and 1 <= j <= 3:
+                continue
+            if observe(e_, i, j)[0] is not None:
+                ctx.failure("strain-oor-pair", "out-of-range strain index pair (%d,%d) accepted as %r"
+                            % (i, j, observe(e_, i, j)[0]), input=[i, j])
+            for other in ((1, 1), (2, 3), (1, 3)):
+                for t in ((i, j) + other, other + (i, j)):
+                    k, err = observe(c_, *t)
+                    if k is not None:
+                        ctx.failure("oor-4tuple", "out-of-range tuple %s accepted as %r" % (t, k), input=list(t))
+    for a in rngv:
+        for b in range(-1, 9):
+            if 1 <= a <= 6 and 1 <= b <= 6:
+                continue
+            for t in ((a, b), (b, a)):
+                k, err = observe(c_, *t)
+                if k is not None:
+                    ctx.failure("oor-voigt-pair", "out-of-range Voigt pair %s accepted as %r" % (t, k), input=list(t))
     for v, s in DOC.items():
         k, err = observe(e_, v)
         if k is None or tuple(k) != s or k.voigt != v or observe(e_, *s)[0] != k or observe(e_, s[1], s[0])[0] != k:
